@@ -3,6 +3,7 @@ package main
 // VC generator core: script assembly, heap model, obligations.
 
 import (
+	"os"
 	"fmt"
 	"go/types"
 	"sort"
@@ -285,6 +286,14 @@ func (g *Gen) obligationName(kind, site string) string {
 
 // oblige records an obligation: under path, goal must hold.
 func (g *Gen) oblige(kind, site, path, goal, clause string) *Obligation {
+	if splitDebug && strings.HasPrefix(goal, "(and ") {
+		// debugging aid (GOVC_SPLIT=1): one obligation per top-level conjunct
+		var last *Obligation
+		for i, c := range topArgs(goal) {
+			last = g.oblige(kind, fmt.Sprintf("%s.c%d", site, i+1), path, c, clause+" [conjunct "+fmt.Sprint(i+1)+": "+trunc(c, 120)+"]")
+		}
+		return last
+	}
 	name := g.obligationName(kind, site)
 	o := &Obligation{Name: name, Kind: kind, Fn: g.fnKey, Clause: clause, Mode: g.mode.String()}
 	if g.con != nil {
@@ -400,6 +409,9 @@ type Epoch struct {
 	memo      map[string]string
 	g         *Gen
 	ghostPrev *Heap  // root epochs created by a heap havoc that keeps ghost state
+	prev      *Heap  // layered epoch (after a call that may allocate): equal to prev on every object that existed (<= prevTop)
+	prevTop   string
+	onNew     func(key string) // called when the value of a key of this root epoch is first created
 	top       string // allocation watermark when this (root) heap value came into being: every reference stored in it is <= top
 }
 
@@ -466,6 +478,20 @@ func (e *Epoch) get(key string) string {
 	var v string
 	if len(e.parts) == 0 && e.ghostPrev != nil && strings.HasPrefix(key, "G:") {
 		v = e.ghostPrev.get(g, key)
+	} else if len(e.parts) == 0 && e.prev != nil && strings.HasPrefix(key, "G:") {
+		v = e.prev.get(g, key)
+	} else if len(e.parts) == 0 && e.prev != nil {
+		pv := e.prev.get(g, key)
+		v = fmt.Sprintf("h%d_%s", e.id, sanitize(key))
+		g.emit(fmt.Sprintf("(declare-const %s %s)", v, srt))
+		g.heapConsts = append(g.heapConsts, v)
+		if g.constKey == nil {
+			g.constKey = map[string]string{}
+		}
+		g.constKey[v] = key
+		r := g.fresh("lr")
+		g.emit("(assert (forall ((" + r + " Int)) (! (=> (<= " + r + " " + e.prevTop + ") (= (select " + v + " " + r + ") (select " + pv + " " + r + "))) :pattern ((select " + v + " " + r + ")))))")
+		g.heapRefBound(v, key, e.top)
 	} else if len(e.parts) == 0 {
 		v = fmt.Sprintf("h%d_%s", e.id, sanitize(key))
 		g.emit(fmt.Sprintf("(declare-const %s %s)", v, srt))
@@ -481,6 +507,10 @@ func (e *Epoch) get(key string) string {
 			if gv := g.ghostRange(key); gv != "" {
 				g.assume(strings.ReplaceAll(gv, "$v", v))
 			}
+		}
+		if e.onNew != nil {
+			e.memo[key] = v
+			e.onNew(key)
 		}
 	} else {
 		vals := make([]string, len(e.parts))
@@ -542,6 +572,24 @@ func (g *Gen) mergeHeaps(parts []epochPart) *Heap {
 		}
 	}
 	return &Heap{vals: map[string]string{}, base: &Epoch{id: g.nf, parts: parts, memo: map[string]string{}, g: g}, dirty: d}
+}
+
+// layerHeap: the heap after a call that may have allocated objects: every object that existed keeps the contents it
+// has in h (the caller havocs the assigned locations afterwards or before); the contents of newer objects are unknown.
+func (g *Gen) layerHeap(h *Heap) *Heap {
+	g.nf++
+	k := g.topKey()
+	old := h.get(g, k)
+	nt := g.declare("top", "Int")
+	g.assume("(>= " + nt + " " + old + ")")
+	n := &Heap{vals: map[string]string{k: nt}, base: &Epoch{id: g.nf, memo: map[string]string{}, g: g, prev: h, prevTop: old, top: nt}}
+	if len(h.dirty) > 0 {
+		n.dirty = make(map[string]string, len(h.dirty))
+		for kk, v := range h.dirty {
+			n.dirty[kk] = v
+		}
+	}
+	return n
 }
 
 // havocHeap returns a heap where every non-ghost key is unknown; ghost keys (G:) are kept unless alsoGhost.
@@ -657,6 +705,15 @@ func (g *Gen) attachRegion(o *Obligation) {
 	}
 }
 
+// maybeDirty: some pre-existing location of key k may have been modified since function entry.
+func (h *Heap) maybeDirty(k string) bool {
+	if v := h.dirty["*"]; v != "" && v != "false" {
+		return true
+	}
+	v := h.dirty[k]
+	return v != "" && v != "false"
+}
+
 // dirtyFor: condition under which some key in keys (or anything at all) may have been modified in heap h.
 func (h *Heap) dirtyFor(keys []string) string {
 	var ds []string
@@ -726,4 +783,63 @@ func (g *Gen) refBoundOf(v string, t types.Type, top string, depth int) string {
 		return and(cs...)
 	}
 	return "true"
+}
+
+var splitDebug = os.Getenv("GOVC_SPLIT") != ""
+
+func trunc(s string, n int) string {
+	if len(s) > n {
+		return s[:n] + "..."
+	}
+	return s
+}
+
+// topArgs: the arguments of the application "(f a b c)".
+func topArgs(t string) []string {
+	var out []string
+	depth, start := 0, -1
+	seenHead := false
+	for i := 0; i < len(t); i++ {
+		c := t[i]
+		switch {
+		case c == '(':
+			if depth == 1 && start < 0 {
+				start = i
+			}
+			depth++
+		case c == ')':
+			depth--
+			if depth == 1 && start >= 0 && t[start] == '(' {
+				if seenHead {
+					out = append(out, t[start:i+1])
+				}
+				seenHead = true
+				start = -1
+			} else if depth == 0 && start >= 0 {
+				if seenHead {
+					out = append(out, t[start:i])
+				}
+				start = -1
+			}
+		case c == ' ' || c == '\n':
+			if depth == 1 && start >= 0 && t[start] != '(' {
+				if seenHead {
+					out = append(out, t[start:i])
+				}
+				seenHead = true
+				start = -1
+			}
+		case c == '|':
+			if depth == 1 && start < 0 {
+				start = i
+			}
+			for i++; i < len(t) && t[i] != '|'; i++ {
+			}
+		default:
+			if depth == 1 && start < 0 {
+				start = i
+			}
+		}
+	}
+	return out
 }
